@@ -424,6 +424,8 @@ def run(cx, tier='quick'):
     check_dereference_helper(cx, rep)
     from .c13 import include_own_scanners
     include_own_scanners(cx, facts, rep, ['::deref::', '::deref_mut::'])
+    from .helpers import check_ident_or_index
+    check_ident_or_index(cx, rep)
     rep.floor('SUM-DEREF', 4)
     rep.floor('MODELS-OWN', 10)
     rep.floor('SEL', 4)
